@@ -40,6 +40,12 @@ CHECKS = {
  "C09": ("revision monitor: the model learns each revision from Revision(wtxn) and asserts strict monotonicity, attribution, no change on rejected/no-op/aborted/collector/tracker commits, ByRevision order",
          "Exploration: seeded random histories (sequential) plus histories with change iterators, Close and graveyard collection commits under virtual time.",
          "Revisions are required to be strictly increasing, not +1; concurrent writers on other tables are exercised by the C05/C10 stress parts.", "5/C09"),
+ "C05": ("hook-point pause/probe controller (fault enumeration of interleavings) + race-detector stress with delay injection, table-holder and lock-order monitors, sequence-counter conservation and porcupine strict-serializability check of recorded histories",
+         "Fault enumeration: writer A is paused at each of 9 hook points (commit and abort variants) while a same-table writer, a disjoint-table writer or NewTable runs; plus exploration by concurrent histories under -race with delays injected at the hook points, every history checked by porcupine against a counter-vector model.",
+         "Windows without a hook point are reached only by the stress part; the 'B must not be granted' probe waits 1.5 ms (reaching the lock is definite, not reaching it just ends the probe); porcupine timeouts are inconclusive.", "5/C05"),
+ "C10": ("lock-order monitor (lockdep style) on every table-lock acquisition + hook-point independence probes + race-detector stress with progress watchdog and hook-derived wait-for snapshot",
+         "Fault enumeration: with a writer paused at each of 9 hook points, readers, disjoint committers, iterator create/close and duplicate/unordered table sets must complete (committers may queue at commit.rootLocked); exploration: 2-32 goroutines over 2-8 tables with iterators, 1 ms collection and table registration under -race; strictly increasing lock sequence numbers are asserted on every acquisition, which catches ordering/de-duplication bugs on every execution rather than only when a deadlock happens.",
+         "A watchdog firing without wait-for evidence is reported inconclusive; bounded progress = the fixed operation count completes.", "5/C10"),
 }
 
 NOT_YET = "check not built yet in this session (planned: see DESIGN.md section 5)"
